@@ -125,3 +125,64 @@ class BaseChecker:
 
     def finish(self, ex):
         return []
+
+
+# ------------------------------------------------------------------ pairwise comparison of poll outputs
+
+KEY_COLS = {"unit_data": ["postal_code", "geographic_unit_fips"]}
+
+
+def table_keys(world, name):
+    if name == "unit_data":
+        return ["postal_code", "geographic_unit_fips"]
+    if name == "nat_sum_data":
+        return ["estimand"]
+    inv = {v: k for k, v in R.TABLE_NAME.items()}
+    return R.aggregate_keys(world["office"], inv[name])
+
+
+def same_value(a, b):
+    """Bit-for-bit identity of two cells (NaN equals NaN; 0.0 and -0.0 differ only if their bits differ)."""
+    if isinstance(a, float) or isinstance(b, float) or isinstance(a, (np.floating,)) or isinstance(b, (np.floating,)):
+        try:
+            fa, fb = float(a), float(b)
+        except (TypeError, ValueError):
+            return a == b
+        if math.isnan(fa) and math.isnan(fb):
+            return True
+        return fa == fb and math.copysign(1.0, fa) == math.copysign(1.0, fb)
+    if a is None and b is None:
+        return True
+    try:
+        if a != a and b != b:  # pandas NA / NaN objects
+            return True
+    except (TypeError, ValueError):
+        pass
+    return a == b
+
+
+def index_rows(df, keys):
+    out = {}
+    for r in df.to_dict("records"):
+        out[tuple(r.get(k) for k in keys)] = r
+    return out
+
+
+def diff_rows(ra, rb, cols, rel=None):
+    """Columns whose cells differ.  rel=None: bit-for-bit.  rel=x: floats may differ by a relative x (used only for
+    the bootstrap estimator, whose float outputs go through BLAS products whose summation order depends on the
+    number of groups -- a last-bit difference there is not a change of the estimate)."""
+    out = []
+    for c in cols:
+        a, b = ra.get(c), rb.get(c)
+        if same_value(a, b):
+            continue
+        if rel is not None:
+            try:
+                fa, fb = float(a), float(b)
+                if abs(fa - fb) <= rel * max(abs(fa), abs(fb), 1e-300) or abs(fa - fb) <= 1e-12:
+                    continue
+            except (TypeError, ValueError):
+                pass
+        out.append(c)
+    return out
